@@ -5,6 +5,7 @@ CONSTANTS
   MaxNALs = 0
   MaxNALs265 = 0
   EmitLen = 99
+  DevH265UpdaterComparesStored = FALSE
 INVARIANTS Verdicts Drift
 POSTCONDITION Accepted
 CHECK_DEADLOCK FALSE
